@@ -46,14 +46,16 @@ int main(int argc, char** argv) {
   PolygonTriangulator reused;   // one triangulator object reused across ALL cases (scales 1e-6..1e6)
   for (int t = 0; t < T; t++) {
     Polygons polys; int holes = 0, outers = 0;
-    int kind = (int)r.below(6);
+    int kind = (int)r.below(7);   // 6: hole-free polygons whose REFLEX corners are all exactly duplicated consecutive vertices
     int no = 1 + (int)r.below(kind == 5 ? 3 : 1);
     for (int o = 0; o < no; o++) {
       double cx = 30.0 * o, cy = 0;
-      if (kind == 4) { polys.push_back(stairs(r, cx, cy, 2 + (int)r.below(6), 1.0)); outers++; continue; }
-      int n = 3 + (int)r.below(kind == 0 ? 4 : 20);
+      if (kind == 4 || (kind == 6 && r.below(2))) { polys.push_back(stairs(r, cx, cy, 2 + (int)r.below(6), 1.0)); outers++; continue; }
+      // kinds with holes: the holes (centres at distance 2.55, radius <= 1.2) must lie inside the star, whose vertices have radius >= 5.5 at
+      // equally spaced angles and which therefore contains the disc of radius 5.5 cos(pi/n): n >= 5 (n = 3, 4 gave holes outside a thin outer ring)
+      int n = (kind >= 2 && kind != 6 ? 5 : 3) + (int)r.below(kind == 0 ? 4 : kind == 6 ? 6 : 18);
       polys.push_back(star(r, cx, cy, 10, n, false, kind == 0 ? 0.0 : 0.45)); outers++;
-      if (kind >= 2) {  // holes on a 2x2 grid well inside the kernel disc (radius 5.5) of the star
+      if (kind >= 2 && kind != 6) {  // holes on a 2x2 grid well inside the kernel disc (radius 5.5) of the star
         int nh = (int)r.below(5);
         for (int h = 0; h < nh; h++) {
           double hx = cx + (h % 2 ? 1.8 : -1.8), hy = cy + (h / 2 ? 1.8 : -1.8);
@@ -63,6 +65,12 @@ int main(int argc, char** argv) {
         }
       }
     }
+    if (kind == 6) {
+      for (auto& p : polys) { SimplePolygon q; const size_t n = p.size();
+        for (size_t i = 0; i < n; i++) { vec2 a = p[(i + n - 1) % n], b = p[i], c = p[(i + 1) % n]; const double cr = (b.x - a.x) * (c.y - b.y) - (b.y - a.y) * (c.x - b.x);
+          q.push_back(b); if (cr < 0 || r.below(8) == 0) { q.push_back(b); if (r.below(4) == 0) q.push_back(b); } }
+        p = q; }
+    } else
     if (r.below(3) == 0) for (auto& p : polys) addCollinear(r, p);
     // similarity transform: scales 1e-6 .. 1e6
     double sc = std::pow(10.0, (int)r.below(13) - 6), th = r.below(1000) * 0.00628, tx = (r.below(2001) - 1000.0) * sc, ty = (r.below(2001) - 1000.0) * sc;
@@ -108,6 +116,9 @@ int main(int argc, char** argv) {
     }
     // the decision log of the FIRST call only (second call's hooks come after a second onEarStart)
     std::string tag = "c" + std::to_string(t) + " " + (ops1.empty() ? "convex" : "earclip") + " V=" + std::to_string(V) + " h=" + std::to_string(holes) + " o=" + std::to_string(outers);
+    if (!ok && getenv("C10_DEBUG")) { fprintf(stderr, "DEBUG %s kind=%d allowConvex=%d sc=%g : %s\n", tag.c_str(), kind, (int)allowConvex, sc, msg.c_str());
+      for (auto& p : polys) { fprintf(stderr, "  ring"); for (auto& v : p) fprintf(stderr, " (%.17g,%.17g)", v.x, v.y); fprintf(stderr, "\n"); }
+      for (auto* T2 : {&tris, &tris2}) for (auto& tr : *T2) { vec2 a = pos[tr[0]], b = pos[tr[1]], c = pos[tr[2]]; long double ar = ((long double)(b.x - a.x) * (c.y - a.y) - (long double)(b.y - a.y) * (c.x - a.x)); if (ar < -1e-9 * sc * sc * 100) fprintf(stderr, "  cw tri %d %d %d area2=%Lg (%s)\n", tr[0], tr[1], tr[2], ar, T2 == &tris ? "requested" : "other"); } }
     hz::emit(tag, "", "", ok, msg);
     // separate, unambiguous correspondence runs (one Triangulate call each)
     for (int pass = 0; pass < 2; pass++) {
